@@ -70,8 +70,8 @@ def ns_optim_fft(ns):
     :param ns:
     :return: nsoptim
     """
-    p2, p3 = np.meshgrid(2 ** np.arange(25), 3 ** np.arange(15))
-    sz = np.unique((p2 * p3).flatten())
+    # every 2^a 3^b that a 64 bits signed integer holds, so that the table has no gap below its end
+    sz = np.array(sorted(2 ** a * 3 ** b for a in range(63) for b in range(40) if 2 ** a * 3 ** b < 2 ** 63))
     return sz[np.searchsorted(sz, ns)]
 
 
